@@ -43,6 +43,109 @@ def hook_derived(pv, origin, depth=0):
     return origin_str(origin)
 
 
+# ---- a small model of TransformResult: its constructors, and its accessors evaluated on them -------------
+
+
+def result_ctors(prog):
+    """[(fn, struct node, {"expr": "Some"|"None"|"?", "status": "Modified"|"NotModified"|None})] for every
+    TransformResult literal of the crate"""
+    out = []
+    for f in prog.user_fns:
+        for n in f.nodes():
+            if n.get("k") == "Struct" and (n["res"].get("path") or "").endswith("TransformResult"):
+                flds = {x["name"]: x["e"] for x in n["fields"]}
+                st = hir.peel(flds.get("status", {})) if "status" in flds else {}
+                stv = (st.get("res", {}).get("ctor_path") or "").split("::")[-1] or None
+                ex = hir.peel(flds.get("expr", {})) if "expr" in flds else {}
+                is_some = ex.get("k") == "Call" and (hir.peel(ex["f"]).get("res", {}).get("ctor_path") or "").split("::")[-1] == "Some"
+                is_none = ex.get("k") == "Path" and (ex["res"].get("ctor_path") or "").split("::")[-1] == "None"
+                out.append((f, n, {"expr": "Some" if is_some else ("None" if is_none else "?"), "status": stv}))
+    return out
+
+
+def result_method(prog, name):
+    for cand in ("TransformResult::<T>::" + name, "TransformResult::" + name):
+        fs = prog.find_fns(cand)
+        if fs:
+            return fs[0]
+    return None
+
+
+def eval_on_result(prog, e, val, depth=0):
+    """value of expression e (in a method of TransformResult, `self` being a result with the abstract value
+    `val`): True / False / a variant name / None when not decided"""
+    if depth > 6 or e is None:
+        return None
+    e = hir.peel(e)
+    k = e.get("k")
+    if k == "Lit" and isinstance(hir.lit_value(e), bool):
+        return hir.lit_value(e)
+    if k in ("BlockExpr", "Block"):
+        b = e.get("block", e)
+        if b.get("stmts"):
+            rets = [s_ for s_ in b["stmts"] if hir.peel(s_.get("e") or {}).get("k") == "Ret"]
+            if rets or any(s_.get("k") == "Let" for s_ in b["stmts"]):
+                return None
+        return eval_on_result(prog, b.get("tail"), val, depth + 1) if "tail" in b else None
+    if k == "Path":
+        cp = (e.get("res") or {}).get("ctor_path") or ""
+        if cp:
+            return cp.split("::")[-1]
+        return None
+    if k == "Field" and (hir.place(e) or "").split("#")[0] == "self" or (k == "Field" and (hir.place(e) or "").startswith("self")):
+        return val.get(e["field"]) if e["field"] in ("status",) else None
+    if k == "Unary" and e.get("op") == "Not":
+        v = eval_on_result(prog, e["x"], val, depth + 1)
+        return (not v) if isinstance(v, bool) else None
+    if k == "Binary" and e["op"] in ("Eq", "Ne"):
+        l, r = eval_on_result(prog, e["l"], val, depth + 1), eval_on_result(prog, e["r"], val, depth + 1)
+        if l is None or r is None:
+            return None
+        return (l == r) if e["op"] == "Eq" else (l != r)
+    if k == "Binary" and e["op"] in ("And", "Or"):
+        l, r = eval_on_result(prog, e["l"], val, depth + 1), eval_on_result(prog, e["r"], val, depth + 1)
+        if isinstance(l, bool) and isinstance(r, bool):
+            return (l and r) if e["op"] == "And" else (l or r)
+        return None
+    if k == "If":
+        c = eval_on_result(prog, e["cond"], val, depth + 1)
+        if not isinstance(c, bool):
+            return None
+        return eval_on_result(prog, e["then"] if c else e.get("else"), val, depth + 1)
+    if k == "Match":
+        sv = eval_on_result(prog, e["scrut"], val, depth + 1)
+        if sv is None:
+            return None
+        for arm in e["arms"]:
+            pv_ = hir.pat_variant(arm["pat"])
+            vs_ = [str(x).split("::")[-1] for x in (pv_ if isinstance(pv_, tuple) else (pv_,))]
+            if ("_" in vs_ or str(sv) in vs_) and "guard" not in arm:
+                return eval_on_result(prog, arm["body"], val, depth + 1)
+        return None
+    if k == "MethodCall":
+        recv = hir.peel_transparent(e["recv"])
+        m = e["method"]
+        if recv.get("k") == "Field" and recv["field"] == "expr" and (hir.place(recv) or "").startswith("self") and m in ("is_some", "is_none") and val.get("expr") in ("Some", "None"):
+            return (val["expr"] == "Some") == (m == "is_some")
+        if (hir.place(recv) or "").split("#")[0] == "self" or ((hir.local_of(recv) or (0, ""))[1] == "self"):
+            g = prog.resolve_local(e)
+            if g is not None and g.body is not None and "TransformResult" in (g.rec.get("self_ty") or g.def_path):
+                return eval_on_result(prog, g.body, val, depth + 1)
+        return None
+    return None
+
+
+def status_of_result(prog, val):
+    """the Status a result with this abstract value reports: its `status` field, or what its `status()`
+    accessor evaluates to"""
+    if val.get("status"):
+        return val["status"]
+    g = result_method(prog, "status")
+    if g is None or g.body is None:
+        return None
+    return eval_on_result(prog, g.body, val)
+
+
 def update_status_sites(prog):
     us = prog.fn("OperationTransformVisitor::update_status")
     sites = [(f, n) for f, n in prog.sites_calling(us) if hir.is_call(n)]
@@ -78,6 +181,9 @@ def status_feeds(prog, depth=0):
         a = hir.call_args(n)
         st = hir.peel(a[1])
         base = st["x"] if st.get("k") == "Field" and st["field"] == "status" else None
+        if base is None and st.get("k") == "MethodCall" and st["method"] == "status" and "TransformResult" in (hir.peel(st["recv"]).get("ty") or "") and prog.resolve_local(st) is not None:
+            # the accessor form (its meaning is checked by MODIFIED-HOOK/invariant)
+            base = st["recv"]
         if base is None:
             out.append((f, n, None, a[2] if len(a) > 2 else None))
         else:
@@ -157,13 +263,9 @@ def rule_modified_implies_hook(check, rule="MODIFIED-HOOK"):
                 ctors.append((f, n))
     where = sorted({f.name for f, _ in ctors})
     check.expect(where == ["modified", "modified_with_tag", "not_modified"], rule, rule + "/result-ctors", "-", "TransformResult literals only in %s" % where, "TransformResult is constructed in %s" % where)
-    for f, n in ctors:
-        flds = {x["name"]: x["e"] for x in n["fields"]}
-        st = hir.peel(flds.get("status", {})) if "status" in flds else {}
-        stv = (st.get("res", {}).get("ctor_path") or "").split("::")[-1]
-        ex = hir.peel(flds.get("expr", {})) if "expr" in flds else {}
-        is_some = ex.get("k") == "Call" and (hir.peel(ex["f"]).get("res", {}).get("ctor_path") or "").split("::")[-1] == "Some"
-        is_none = ex.get("k") == "Path" and (ex["res"].get("ctor_path") or "").split("::")[-1] == "None"
+    for f, n, val in result_ctors(prog):
+        stv = status_of_result(prog, val)
+        is_some, is_none = val["expr"] == "Some", val["expr"] == "None"
         ok = (stv == "Modified" and is_some) or (stv == "NotModified" and is_none)
         check.expect(ok, rule, "%s/invariant/%s" % (rule, f.name), hir.loc(n), "status %s <=> expr %s" % (stv, "Some" if is_some else "None"), "TransformResult invariant broken in %s: status %s with expr %s" % (f.name, stv, "Some" if is_some else ("None" if is_none else "?")))
 
